@@ -32,11 +32,14 @@ class Ptr(Scalar):
 
 
 class FnPtr(Scalar):
-    def __init__(self, ret, args):
+    def __init__(self, ret, args, via_typedef=None):
         Scalar.__init__(self, "fnptr", "fnptr", False, 64)
         self.ret, self.args = ret, args
+        self.via_typedef = via_typedef     # name of a typedef of the function TYPE (`typedef R name(args);`), used as `name *member`
 
     def decl(self, name):
+        if self.via_typedef:
+            return "%s *%s" % (self.via_typedef, name)
         return "%s (*%s)(%s)" % (self.ret, name, ", ".join(self.args) or "void")
 
 
@@ -120,6 +123,9 @@ class Model:
                 out.append(emit_record(d))
             elif isinstance(d, Enum):
                 out.append(emit_enum(d))
+            elif d[0] == "fn-typedef":
+                _, name, fp = d
+                out.append("typedef %s %s(%s);" % (fp.ret, name, ", ".join(fp.args) or "void"))
             else:
                 _, name, ty = d
                 out.append("typedef %s;" % ty.decl(name))
@@ -220,8 +226,17 @@ class Gen:
         if allow_ptr and x < self.cfg["p_float"] + 0.05 + 0.12:
             return self.pointer()
         if allow_ptr and x < self.cfg["p_float"] + 0.05 + 0.12 + self.cfg["p_fnptr"]:
-            return FnPtr(self.r.choice(["int", "void", "double", "unsigned char"]),
-                         self.r.sample(["int", "char", "double", "void *", "unsigned long", "float", "short"], self.r.randint(0, 4)))
+            nargs = self.r.randint(0, 4)
+            if self.r.random() < self.cfg.get("p_fnptr_many", 0.0):
+                nargs = self.r.choice([12, 13, 14])
+            pool = ["int", "char", "double", "void *", "unsigned long", "float", "short"]
+            fp = FnPtr(self.r.choice(["int", "void", "double", "unsigned char"]), [self.r.choice(pool) for _ in range(nargs)])
+            if self.r.random() < self.cfg.get("p_fn_typedef", 0.0):
+                tdn = "%sFT%d" % (self.prefix, self.ntd)
+                self.ntd += 1
+                self.m.decls.append(("fn-typedef", tdn, fp))
+                fp = FnPtr(fp.ret, fp.args, via_typedef=tdn)
+            return fp
         if self.m.enums and x > 1 - self.cfg["p_enum"] * 0.3:
             return EnumRef(self.r.choice(self.m.enums))
         if self.m.typedefs and x > 1 - self.cfg["p_enum"] * 0.3 - self.cfg["p_typedef"] * 0.3:
